@@ -39,7 +39,10 @@ def run_extractor():
     if not os.path.exists(ex):
         return True, "no extractor yet"
     rc, out = sh([sys.executable, ex, os.path.join(REPO, "src"), os.path.join(LEAN, "Kanal", "Generated.lean")])
-    return rc == 0, out
+    # the translator: lock-taking functions of /repo/src -> lean/Kanal/GenCode.lean (content-compared as well)
+    tr = os.path.join(ROOT, "extract", "rs2lean.py")
+    rc2, out2 = sh([sys.executable, tr, os.path.join(REPO, "src"), os.path.join(LEAN, "Kanal", "GenCode.lean")])
+    return rc == 0 and rc2 == 0, out + out2
 
 
 def build_lean(targets):
@@ -68,6 +71,12 @@ def hygiene():
                 if pat.search(line):
                     bad.append(f"{os.path.relpath(p, ROOT)}:{i}: {line.strip()}")
     return bad
+
+
+def tiecode_detail(short, out):
+    """the error text of one TieCode theorem, with the generated definition it talks about"""
+    m = re.search(r"error: [^\n]*TieCode\.lean:(\d+)", out)
+    return out[-1500:]
 
 
 def audit_module(relpath):
@@ -445,6 +454,21 @@ def main(argv):
                 broken.append({"what": f"theorem {th} ({rel}) no longer checks", "detail": out[-1500:]})
         if not ok and len(expected) == len([t for t in expected if t in got]):
             broken.append({"what": f"{rel} has errors", "detail": out[-1500:]})
+    if spec.get("tie_code"):
+        # tie by translation: the generated definitions must equal the fine-grained model (per-theorem granularity)
+        ok, got, _, out = audit_module("Kanal/TieCode.lean")
+        for short in spec["tie_code"]:
+            th = "Kanal.TieCode." + short
+            n_oblig += 1
+            if th in got and set(got[th]) <= ALLOWED_AXIOMS:
+                n_dis += 1
+                theorems[th] = got[th]
+                axioms_seen |= set(got[th])
+            elif th in got:
+                broken.append({"what": f"tie theorem {th} depends on disallowed axioms (the translation of /repo/src no longer equals the model)", "detail": str(got[th])})
+            else:
+                broken.append({"what": f"tie theorem {th} (Kanal/TieCode.lean: translated source = fine-grained model) no longer checks",
+                               "detail": tiecode_detail(short, out)})
     hy = hygiene()
     if hy:
         broken.append({"what": "forbidden construct in the Lean development", "detail": "\n".join(hy[:20])})
